@@ -57,7 +57,21 @@ def cells(tier, seed):
                 out.append({"k": "fault", "f": fi, "n": n, "m": m})
     for n in range(0, 3):
         out.append({"k": "module", "n": n})
+    for i in range(len(INNER)):
+        for n in range(1, b["gap_len"] + 1):
+            out.append({"k": "inner", "i": i, "n": n})
     return out
+
+
+# the faulty token sits INSIDE an expression; `@` marks a symbolic layout gap directly before it.
+# The reported line must be the line on which the faulty token (or the construct it starts) begins.
+INNER = [
+    "1 +@undefined_q", "f(1,@undefined_q)", "[1,@undefined_q]", "7 !>@undefined_q()", "7 !>@undefined_q(2)",
+    "Lib->@undefined_q", "7 !> Lib->@undefined_q()", "if TRUE then@undefined_q", "def z =@undefined_q", "not@undefined_q",
+    "<<<1 =>@undefined_q>>>", "g(a =@undefined_q)", "1 +@error 'boom'", "[x for x in@undefined_q]", "for i in@undefined_q do 1 end",
+    "undefined_q@+ 1", "-@undefined_q", "(@undefined_q)", "1 <@undefined_q < 3", "TRUE and@undefined_q",
+    "1 +@(2 / 0)", "1 +@[1, 2][7]", "id(@undefined_q)", "7 !> id() !>@undefined_q()",
+]
 
 
 def count_nl(chars):
@@ -148,6 +162,30 @@ def run(ctx, cell):
                           "C20:fault:infunc:stacktrace-wrong-line",
                           lambda: {"text": str(text), "entry": st[0], "expected_line": int(call_line)})
         return [out.kind, e.pos.line if e.pos is not None else None]
+    if k == "inner":
+        ctx.reach("fault")
+        tmpl = INNER[cell["i"]]
+        gap = ctx.str("g", cell["n"])
+        T.layout_ok(ctx, gap)
+        pre = "def f(a, b) a; def g(a) a; def id(a) a; def Lib = <*v = 1*>;\n"
+        head, tail = tmpl.split("@")
+        text = pre + head + gap + tail
+        exp = 2 + count_nl(list(gap))
+        if tmpl.startswith("undefined_q@"):
+            exp = 2
+        out = run_ckl(text, name="prog.ckl")
+        key = "C20:inner[%s]" % tmpl
+        detail = lambda: {"text": str(text), "reported": str(out.exc.pos) if out.exc is not None else None,
+                          "expected_line": int(exp)}
+        if out.kind not in ("rt", "syn"):
+            return [out.kind]               # e.g. `Lib->undefined_q` is NULL, not an error: nothing to locate
+        e = out.exc
+        if e.pos is None:
+            ctx.fail(key + ":no-position", detail)
+            return [out.kind]
+        ctx.check(e.pos.filename == "prog.ckl", key + ":wrong-filename", detail)
+        ctx.check(e.pos.line == exp, key + ":wrong-line", detail)
+        return [out.kind, e.pos.line]
     if k == "module":
         ctx.reach("fault")
         g = ctx.str("g", cell["n"])
